@@ -152,7 +152,8 @@ def check_copy(ctx, how, a, b, case):
         va = a.GetAbstractValue() if hasattr(a, "GetAbstractValue") else None
         from barril.units import Array as _Array
 
-        if isinstance(a, _Array) and not (isinstance(va, (list, tuple)) or (isinstance(va, np.ndarray) and va.ndim == 1)):
+        flat = (isinstance(va, (list, tuple)) and not any(isinstance(e_, (np.ndarray, list)) for e_ in va)) or (isinstance(va, np.ndarray) and va.ndim == 1)
+        if isinstance(a, _Array) and not flat:
             # == is promised for one-dimensional containers (C08); a copy of anything else is compared through its snapshot
             if b is None or snapshot.value_object(a) != snapshot.value_object(b):
                 ctx.violation("copy-differs-in-a-field:%s:%s" % (how, type(a).__name__), dict(case, original=repr(snapshot.value_object(a))[:200], copied=repr(snapshot.value_object(b))[:200] if b is not None else None), replay=case)
